@@ -15,5 +15,17 @@ CHECKS = {
     text='Postcondition monitors on the real mat_from_rph / mat_to_rph / compiled mat_from_rotvec / attitude block of transform_to_output: 40-digit Rz Ry Rx and Rodrigues references, orthonormality, physical sign probes, round trips with 1/cos(pitch) conditioning, dense sampling on both sides of the small-angle branch incl. a relative check of the skew part, Richardson derivative of the real Euler extraction.',
     ref='2/C17', technique='runtime postconditions vs high-precision reference model',
     note='Trusts mpmath at 40 digits; |pitch| <= 89.9 deg.'),
+ 'C05': dict(
+    text='Postcondition monitors on the real transform_to_output / transform_to_internal / correct_pva / compute_state_difference / perturb_pva: left-inverse identity at rounding level (kappa = cond T), first-order coefficient of the correction residual and of the perturb-then-correct residual extracted by Richardson elimination on a six-rung error-scale ladder (must be < 1e-6 of the linear term), 2-D structural invariants bitwise.',
+    ref='2/C05', technique='runtime postconditions + order-of-residual ladder on the real functions',
+    note='|pitch| <= 85 deg; attitude error scaled by cos(pitch); limit statement restated as a bounded ladder.'),
+ 'C06': dict(
+    text='Postcondition monitor on the real compute_matrices of the three measurement classes (patched on the classes): own residual model, Richardson central-difference Jacobian of the real residual through the real correct_pva, noise matrix and dimensions per altitude mode, None iff time absent; end-to-end through the real simulators with a recording RandomState (z = 0, z = -e) and through translate_trajectory for lever arms.',
+    ref='2/C06', technique='runtime postconditions vs finite-difference Jacobian of the real residual',
+    note='|pitch| <= 85 deg, lever <= 5 m, rates <= 1.5 rad/s; position residual compared to first order.'),
+ 'C18': dict(
+    text='Postconditions and metamorphic relations on the real compute_state_difference / resample_state / to_180_range / perturb_pva against an independent reference (own linear interpolation, own shortest-arc quaternion slerp, own radii): both argument orders, swap branch, self / sub-sampled differences, index rule, ranges, first-order recovery ladder, congruence of angle reduction for |x| up to 1e9 in all input forms.',
+    ref='2/C18', technique='runtime postconditions vs reference model + metamorphic relations',
+    note='|pitch| <= 70 deg in tables; longitudes near but not across +-180 (the code does not wrap longitude differences).'),
 }
 PENDING = {}
